@@ -49,7 +49,7 @@ ARITH_TABLE = [
     (r"^<nnum::NNum as core::MyDisplay>::fmt_with_mut$", 'DivisionByZero', 2, 'division by the constant 2'),
     (r"^<streams::CartesianPower as core::Stream>::len::\{closure#0\}$", 'Overflow:Sub', 2, 'len - 1 - v[i] with v[i] < len; the closure runs only for a non-empty cursor, hence a non-empty base'),
     (r"^<streams::Combinations as std::iter::Iterator>::next$", 'Overflow:Sub', 2, 'j - 1 for j >= i + 1; last -= 1 at most len times'),
-    (r"^<streams::Cycle as core::Stream>::pythonic_index_isize$", 'Overflow:Add', 1, 'cursor < n and rem_euclid(n) < n'),
+    (r"^<streams::Cycle as core::Stream>::pythonic_index_isize$", 'Overflow:Add', 1, 'cursor < n and rem_euclid(n) < n', r'rem_euclid'),
     (r"^<streams::Cycle as core::Stream>::pythonic_index_isize$", 'RemainderByZero', 1, 'n = len of a never-empty base (cycle rejects an empty sequence)'),
     (r"^<streams::Cycle as core::Stream>::pythonic_index_isize$", 'Overflow:Rem', 1, 'only for n == -1; n is a length'),
     (r"^<streams::Cycle as core::Stream>::reversed$", 'Overflow:Sub', 1, 'len - cursor with cursor < len'),
@@ -117,4 +117,26 @@ PARTIAL_TABLE = [
     (r"^<streams::Cycle as core::Stream>::pythonic_index_isize$", 'rem_euclid', 'the base of a Cycle is never empty: checked separately below (cycle builtin guard, reversed keeps the length)'),
     (r"^builtin\(str_radix\)$", 'rem', 'the base r was checked to be in 2..=36'),
     (r"^builtin\(str_radix\)$", 'div_assign', 'the base was checked to be in 2..=36'),
+]
+
+
+# narrowing / sign-changing integer casts and float->int casts: (function-key regex, 'from->to') -> (count, reason)
+CAST_TABLE = [
+    (r"^core::pythonic_index_isize$", 'usize->isize', 2, 'a slice length fits isize'),
+    (r"^core::pythonic_index_isize$", 'isize->usize', 2, 'n after 0 <= n < len; n + len after n < 0, re-checked against len (a negative sum becomes a huge usize and fails the bound test)'),
+    (r"^core::clamped_pythonic_index$", 'isize->usize', 2, 'i >= 0 on that branch; i + len tested >= 0'),
+    (r"^core::clamped_pythonic_index$", 'usize->isize', 1, 'a slice length fits isize'),
+    (r"^core::Stream::pythonic_index_isize$", 'usize->isize', 1, 'a Vec length fits isize'),
+    (r"^core::Stream::pythonic_index_isize$", 'isize->usize', 1, 'i + len re-checked against len'),
+    (r"^decimal::apply_exp10$", 'i32->u32', 1, 'under exponent >= 0'),
+    (r"^decimal::parse_unsigned_decimal_exactly$", 'usize->u32', 1, 'number of fraction digits of an in-memory string; the i32 conversion next to it is checked (try_from)'),
+    (r"^nnum::NNum::pow$", 'u32->i32', 3, 'helper not reachable from the ^ builtin (pow_num is); exponent of a documented small-power helper'),
+    (r"^<streams::Repeat as core::Stream>::pythonic_slice$", 'isize->usize', 1, '(hi - lo).max(0)'),
+    (r"^<streams::Cycle as core::Stream>::pythonic_index_isize$", 'usize->isize', 2, 'length and cursor of an in-memory vector'),
+    (r"^<streams::Cycle as core::Stream>::pythonic_index_isize$", 'isize->usize', 1, 'a value reduced modulo n, in 0..n'),
+    (r"^cyclic_index$", 'usize->isize', 1, 'a slice length fits isize'),
+    (r"^cyclic_index$", 'isize->usize', 1, 'rem_euclid result in 0..len'),
+    (r"^builtin\(b_spline\)$", 'f64->usize', 1, 'floor(t * n): `as` saturates, the result is re-checked against n'),
+    (r"^builtin\(hex_decode\)::\{closure#[01]\}$", 'i32->u32', 1, 'the constant shift amount 4'),
+    (r"^builtin\(now\)$", 'f64->i32', 1, 'impure builtin (clock), outside the pure language'),
 ]
